@@ -93,6 +93,12 @@ pub struct Case {
     /// engine's reserved `_` namespace (`_from`, `_to`, `_directed`, `_id`, ...)
     #[serde(default)]
     pub reserved_props: bool,
+    /// engine configuration (part of the case): a unique constraint on all edges, on a
+    /// property no generated edge carries. It never refuses anything, but with it every
+    /// edge creation runs under the engine's constraint lock. That lock is held across the
+    /// hook sites, so in these cases only thread 0 creates edges.
+    #[serde(default)]
+    pub unique_edges: bool,
 }
 
 pub struct C05;
@@ -1206,7 +1212,7 @@ fn gen_hub_case(rng: &mut Rng) -> Case {
         // the hub once more: gone, or still there if the first attempt reported an error
         prog.push(Op::DeleteNode { n: ANY });
     }
-    Case { setup, threads: vec![prog], schedule: Vec::new(), reserved_props: rng.chance(1, 8) }
+    Case { setup, threads: vec![prog], schedule: Vec::new(), reserved_props: rng.chance(1, 8), unique_edges: false }
 }
 
 impl Scenario for C05 {
@@ -1259,7 +1265,7 @@ impl Scenario for C05 {
             let n = rng.range(6, 28) as usize;
             let wts = if rng.chance(1, 2) { W_MIXED } else { W_MIXED_ALL };
             let prog = (0..n).map(|_| gen_op(rng, &wts, 40)).collect();
-            return Case { setup, threads: vec![prog], schedule: Vec::new(), reserved_props: rng.chance(1, 8) };
+            return Case { setup, threads: vec![prog], schedule: Vec::new(), reserved_props: rng.chance(1, 8), unique_edges: false };
         }
         let nthreads = match rng.below(10) {
             0..=3 => 2,
@@ -1271,16 +1277,26 @@ impl Scenario for C05 {
         let max_ops = if nthreads <= 3 { 5 } else { 3 };
         let mut threads = Vec::new();
         let mut total = 0;
-        for _ in 0..nthreads {
+        // one multi-threaded case in six runs with a unique edge constraint configured: all
+        // edge creation is then left to thread 0 (see `Case::unique_edges`)
+        let unique_edges = rng.chance(1, 6);
+        let mut w_rest = w;
+        w_rest[1] = 0;
+        w_rest[7] = 0;
+        if w_rest.iter().sum::<u64>() == 0 {
+            w_rest[3] = 1;
+        }
+        for t in 0..nthreads {
             let n = rng.range(1, max_ops) as usize;
-            let prog: Vec<Op> = (0..n).map(|_| gen_op(rng, &w, hub)).collect();
+            let wt = if unique_edges && t > 0 { &w_rest } else { &w };
+            let prog: Vec<Op> = (0..n).map(|_| gen_op(rng, wt, hub)).collect();
             total += prog.iter().map(op_weight).sum::<usize>();
             threads.push(prog);
         }
         let stick = *rng.pick(&[0u64, 40, 70, 85, 93, 97]);
         let schedule = sched::gen_schedule(rng, (total * 10 + 16).min(500), stick);
         let reserved_props = rng.chance(1, 8);
-        Case { setup, threads, schedule, reserved_props }
+        Case { setup, threads, schedule, reserved_props, unique_edges }
     }
 
     fn run(&self, case: &Case, ctx: &Arc<RunCtx>) -> RunOut {
@@ -1305,6 +1321,19 @@ impl Scenario for C05 {
         }));
         if case.reserved_props {
             ctx.probe("property_names_in_reserved_namespace");
+        }
+        if case.unique_edges {
+            let c = graph_engine::Constraint {
+                name: "no-two-alike".into(),
+                target: graph_engine::ConstraintTarget::AllEdges,
+                property: "serial_no_nobody_sets".into(),
+                constraint_type: graph_engine::ConstraintType::Unique,
+            };
+            if let Err(e) = eng.create_constraint(c) {
+                out.harness_error = Some(format!("create_constraint: {e}"));
+                return out;
+            }
+            ctx.probe("unique_edge_constraint_configured");
         }
         ctx.fp(&format!("threads{nthreads}"));
         for op in &case.setup {
